@@ -419,3 +419,30 @@ def async_param_to_arg(W, bv, t, cv, term):
                     if src[0] == "param" and src[1] - 1 < len(t.get("args", [])):
                         return bv.trace_op(t["args"][src[1] - 1])
     return None
+
+
+def builder_setters_preserve(R, rule, W, c, fields):
+    """Every by-value setter of StateMachineBuilder (a method that rebuilds the builder, possibly at another type) carries
+    each of `fields` over from `self` unless the field is the one it sets (= comes from one of its own parameters)."""
+    from . import terms
+    from .core import BV, strip
+    SB = "state_machine::builder::StateMachineBuilder"
+    n = 0
+    for b in c.bodies:
+        if b.get("kind") != "fn" or not (b.get("impl_self") or "").startswith(SB) or b.get("item") in ("new", "new_stub", "build", "start", "oneshot_check"):
+            continue
+        bv = BV.of(b)
+        ret = strip(bv.trace_local(0))
+        if not (ret[0] == "agg" and len(ret) > 4 and (ret[2] or "").endswith("StateMachineBuilder::StateMachineBuilder")):
+            continue
+        got = dict(zip(ret[4], [terms.render(bv, v_, W, {}) for v_ in ret[3]]))
+        for f in fields:
+            if f not in got:
+                continue
+            n += 1
+            v = got[f]
+            from_self = v == "param1." + f
+            from_param = v.startswith("param") and not v.startswith("param1.") or v.startswith("Some{param") or "(param2" in v or "(param3" in v
+            R.check(rule, "setter-preserves:%s:%s" % (b.get("item"), f), from_self or from_param, "%s() keeps the configured %s" % (b.get("item"), f),
+                    "StateMachineBuilder::%s() replaces the configured %s by %s: a builder configured in another order silently loses it" % (b.get("item"), f, v[:80]), loc(bv, 0))
+    R.floor(rule, "builder setters carrying the field over", n, 3)
